@@ -234,7 +234,9 @@ def read_def(ck: Checker, name_node, at, reads):
 # ------------------------------------------------------- path enumeration with raise points --
 TOTAL_CALLS = {"len", "str", "int", "bool", "sorted", "list", "set", "tuple", "dict", "min", "max", "abs", "isinstance", "enumerate",
                "rsplit", "split", "lower", "upper", "strip", "startswith", "endswith", "get", "append", "add", "setdefault", "join",
-               "BytesIO", "items", "values", "keys", "debug", "info", "warning", "format", "replace", "rpartition", "partition"}
+               "BytesIO", "items", "values", "keys", "debug", "info", "warning", "format", "replace", "rpartition", "partition",
+               # pure string functions of os.path / posixpath (total on str)
+               "basename", "dirname", "splitext"}
 
 
 def may_raise(s, total=()):
